@@ -245,7 +245,7 @@ func AccountLoadFile(text string) Account {
 		// blank skips nothing); commas separate as well
 		fields := strings.FieldsFunc(line, func(r rune) bool { return r == ',' || unicode.IsSpace(r) })
 		if len(fields) == 0 {
-			if strings.TrimFunc(line, unicode.IsSpace) != "" {
+			if strings.TrimFunc(line, unicode.IsSpace) != "" && !Legacy {
 				// a line of commas only is not blank: it must make the read fail (it holds no instruction)
 				a.InstrShaped += 1 << 20
 				continue
